@@ -147,7 +147,7 @@ def noDupStr : List String → Bool
   | [] => true
   | a :: t => !t.contains a && noDupStr t
 
-def rixObs (readAll : Bool) (packs files : String) : String :=
+def rixObs (readAll : Bool) (packs files : String) (dryFirst : Bool := false) : String :=
   let ps? := if packs = "-" then some [] else (packs.splitOn ";").mapM parseRixPack
   match ps? with
   | none => "bad-op"
@@ -163,16 +163,25 @@ def rixObs (readAll : Bool) (packs files : String) : String :=
         match ps[id]? with
         | some p => if p.readable ∧ size = p.size then some p.blobs else none
         | none => none
-      let r := Rustic.Index.repairIndex readHeader store fs readAll
-      let listings (i : Nat) (marked : Bool) : List Rustic.Index.IndexPack :=
-        r.flatMap fun f => (if marked then f.packsToDelete else f.packs).filter fun p => p.id = i
-      let per := ps.zipIdx.map fun (p, i) =>
-        let u := listings i false
-        let m := listings i true
-        let ok := (u ++ m).all fun q => q.blobs = p.blobs
-        s!"{p.label}:u{u.length}m{m.length}{if ok then "=" else "x"}"
-      let unknown := (r.flatMap fun f => (f.packs ++ f.packsToDelete).filter fun p => p.id ≥ 1000).length
-      s!"ok {if per.isEmpty then "-" else ",".intercalate per} ?{unknown}"
+      let obsOf (r : List Rustic.Index.IndexFile) : String :=
+        let listings (i : Nat) (marked : Bool) : List Rustic.Index.IndexPack :=
+          r.flatMap fun f => (if marked then f.packsToDelete else f.packs).filter fun p => p.id = i
+        let per := ps.zipIdx.map fun (p, i) =>
+          let u := listings i false
+          let m := listings i true
+          let ok := (u ++ m).all fun q => q.blobs = p.blobs
+          s!"{p.label}:u{u.length}m{m.length}{if ok then "=" else "x"}"
+        let unknown := (r.flatMap fun f => (f.packs ++ f.packsToDelete).filter fun p => p.id ≥ 1000).length
+        s!"{if per.isEmpty then "-" else ",".intercalate per} ?{unknown}"
+      if dryFirst then
+        -- `rixd`: `repair_index(opts, dry_run = true)` first (the index files as they are afterwards), then the real run on that
+        let r1 := Rustic.Index.repairIndexD true readHeader store fs readAll
+        let r2 := Rustic.Index.repairIndexD false readHeader store r1 readAll
+        -- `chk`: does `to_indexed_checked` (model `checkedPacks`) succeed on the damaged store?
+        let chk := if (Rustic.Index.checkedPacks readHeader store fs).isSome then "ok" else "err"
+        s!"ok chk={chk} {obsOf r1} / {obsOf r2}"
+      else
+        s!"ok {obsOf (Rustic.Index.repairIndex readHeader store fs readAll)}"
 
 /-! ### `pw`: the pack-writer model (`Model/PackWriter.lean`) under the sequential schedule -/
 section pw
@@ -372,6 +381,13 @@ def handle : List String → String
     | _, _, _, _ => "bad-op"
   | ["rix", ra, packs, files] =>
     if ra = "0" then rixObs false packs files else if ra = "1" then rixObs true packs files else "bad-op"
+  | ["rixd", ra, packs, files] =>
+    if ra = "0" then rixObs false packs files true else if ra = "1" then rixObs true packs files true else "bad-op"
+  | ["cflags", seed] =>
+    -- the `cacheable` flag of ranged pack reads, per pack type: header reads (`PackHeader::from_file`) and blob reads
+    if seed.toNat?.isNone then "bad-op" else
+    let f (b : Bool) := if b then "1" else "0"
+    s!"ok hdr=t{f (headerReadCacheable .tree)}d{f (headerReadCacheable .data)} blob=t{f (blobReadCacheable .tree)}d{f (blobReadCacheable .data)}"
   | ["pw", dl, tl, fail, adds] =>
     let fail? : Option (Option Nat) := if fail = "-" then some none else fail.toNat?.map some
     let adds? := if adds = "-" then some [] else (adds.splitOn ",").mapM parsePwAdd
@@ -383,7 +399,11 @@ def handle : List String → String
   | ["repo", variant, seed] =>
     if ["backup", "prune-fast", "prune-copy", "prune-all", "copy", "merge", "rewrite", "repair-snapshots"].contains variant ∧ seed.toNat?.isSome then "ok" else "bad-op"
   | ["repair", variant, seed] =>
-    if ["all", "some", "none", "all-readall", "some-readall", "none-readall", "badhint", "fullpack", "fullpack-readall"].contains variant ∧ seed.toNat?.isSome
+    -- `[hc-][dry-]<which>[-readall]`: hc = on a hot/cold pair of stores, dry = a dry run first (not for `fullpack`)
+    let v1 := if variant.startsWith "hc-" then (variant.drop 3).toString else variant
+    let v2 := if v1.startsWith "dry-" then (v1.drop 4).toString else v1
+    let plain := ["all", "some", "none", "all-readall", "some-readall", "none-readall", "badhint", "lostpack", "lostpack-readall"]
+    if (plain.contains v2 ∨ (v2 = variant ∧ ["fullpack", "fullpack-readall"].contains variant)) ∧ seed.toNat?.isSome
     then "ok" else "bad-op"
   | _ => "bad-op"
 
